@@ -123,8 +123,8 @@ def unit(job, variant, pi, seed, length):
 def main(ck: Check):
     quick = ck.tier == "quick"
     variants = [0, 1] if quick else [0, 1, 2]
-    plans_per = 2 if quick else 6
-    length = (25, 40) if quick else (40, 90)
+    plans_per = 2 if quick else 18
+    length = (25, 40) if quick else (60, 140)
     rng = ck.rng
     work = [(job, v, pi, ck.seed, rng.randint(*length)) for job in JOBS for v in variants for pi in range(plans_per)]
     tot = {"commands": 0, "plays": 0, "router_calls": 0, "elapsed_events": 0, "zero_elapse": 0, "fractional_elapse": 0,
